@@ -257,6 +257,52 @@ let cmd_replay line =
       (s_of_f v.ns_mom.vx) (s_of_f v.ns_mom.vy) (s_of_f v.ns_mom.vz))) ns;
     print_endline (Buffer.contents b)
 
+
+(* ---------------------------------------------------------------- C11 control of refine_mesh: the loop over the work set *)
+let cmd_loop line =
+  let t = Array.of_list (toks line) in
+  let pos = ref 0 in
+  let next () = let s = t.(!pos) in incr pos; s in
+  let nf () = f_of_s (next ()) and ni () = int_of_string (next ()) in
+  let dyn = ni () <> 0 in let lmin2 = nf () in let lmax2 = nf () in
+  let nfc = ni () in
+  let faces = List.init nfc (fun _ -> let a = ni () in let b = ni () in let c = ni () in let ty = ni () in
+    (((int_to_n a, int_to_n b), int_to_n c), int_to_nat ty)) in
+  let nn = ni () in
+  let v3 () = let x = nf () in let y = nf () in let z = nf () in { vx = x; vy = y; vz = z } in
+  let nodes = List.init nn (fun _ -> let id = ni () in let p = v3 () in let m = v3 () in (int_to_n id, { ns_pos = p; ns_mom = m })) in
+  (* the swaps of remove_elongated_triangles come first *)
+  let nsw = ni () in
+  let swaps = List.init nsw (fun _ -> let a = ni () in let b = ni () in OpSwap (int_to_n a, int_to_n b)) in
+  let npop = ni () in
+  let script = List.init npop (fun _ -> let a = ni () in let b = ni () in let e = ni () in { p_a = int_to_n a; p_b = int_to_n b; p_new = int_to_n e }) in
+  let left = ni () in
+  let st0 = { ms_faces = faces; ms_nodes = nodes } in
+  match ops_replay_f dyn st0 swaps with
+  | None -> print_endline "NONE swaps"
+  | Some st1 ->
+    let log = loop_log_f dyn lmin2 lmax2 st1 O script in
+    let dname d = match d with DSplit -> "S" | DMerge -> "M" | DNone -> "N" | DStuck -> "X" in
+    let logs = String.concat "" (List.map (fun ((i, e), d) -> Printf.sprintf " %d %d %s" (nat_to_int i) (nat_to_int e) (dname d)) log) in
+    let canon (((a, b), c), ty) =
+      let a = n_to_int a and b = n_to_int b and c = n_to_int c in
+      let m = min a (min b c) in
+      let (x, y, z) = if m = a then (a, b, c) else if m = b then (b, c, a) else (c, a, b) in (x, y, z, nat_to_int ty) in
+    let show kind st iter nops left =
+      let fs = List.sort compare (List.map canon st.ms_faces) in
+      let ns = List.sort (fun (a, _) (b, _) -> compare a b) (List.map (fun (k, v) -> (n_to_int k, v)) st.ms_nodes) in
+      let b = Buffer.create 4096 in
+      Buffer.add_string b (Printf.sprintf "%s %d %d %d %d |%s |" kind (nat_to_int iter) nops left (nat_to_int (loop_nb_edges_f st)) logs);
+      List.iter (fun (x, y, z, ty) -> Buffer.add_string b (Printf.sprintf " %d %d %d %d" x y z ty)) fs;
+      Buffer.add_string b " |";
+      List.iter (fun (k, v) -> Buffer.add_string b (Printf.sprintf " %d %s %s %s %s %s %s" k (s_of_f v.ns_pos.vx) (s_of_f v.ns_pos.vy) (s_of_f v.ns_pos.vz)
+        (s_of_f v.ns_mom.vx) (s_of_f v.ns_mom.vy) (s_of_f v.ns_mom.vz))) ns;
+      print_endline (Buffer.contents b) in
+    (match loop_run_f dyn lmin2 lmax2 st1 script (int_to_nat left) with
+     | Returned (st, iter, ops, l) -> show "RETURNED" st iter (List.length ops) (nat_to_int l)
+     | Threw (st, iter, ops) -> show "THREW" st iter (List.length ops) 0
+     | Diverged -> print_endline ("DIVERGED 0 0 0 0 |" ^ logs ^ " | |"))
+
 (* ---------------------------------------------------------------- C08 population bookkeeping *)
 let cmd_population line =
   let t = Array.of_list (toks line) in
@@ -549,7 +595,7 @@ let cmd_init line =
           print_endline (Printf.sprintf "CLOUD %d%s" (List.length out) (String.concat "" (List.map (fun o -> Printf.sprintf " %d" (idx o.op_pos)) out)))))
   | _ -> print_endline "?"
 
-let commands : (string * (string -> unit)) list ref = ref [ ("init", cmd_init); ("divider", cmd_divider); ("contact", cmd_contact); ("vtkread", cmd_vtkread); ("output", cmd_output); ("params", cmd_params); ("vtk", cmd_vtk); ("population", cmd_population); ("replay", cmd_replay); ("forces", cmd_forces); ("geometry", cmd_geometry); ("valid", cmd_valid); ("cellcycle", cmd_cellcycle); ("kernel", cmd_kernel); ("grid", cmd_grid); ("integrate", cmd_integrate) ]
+let commands : (string * (string -> unit)) list ref = ref [ ("init", cmd_init); ("divider", cmd_divider); ("contact", cmd_contact); ("vtkread", cmd_vtkread); ("output", cmd_output); ("params", cmd_params); ("vtk", cmd_vtk); ("population", cmd_population); ("replay", cmd_replay); ("loop", cmd_loop); ("forces", cmd_forces); ("geometry", cmd_geometry); ("valid", cmd_valid); ("cellcycle", cmd_cellcycle); ("kernel", cmd_kernel); ("grid", cmd_grid); ("integrate", cmd_integrate) ]
 
 let () =
   let cmd = Sys.argv.(1) in
